@@ -49,25 +49,28 @@ def make_classes(pj):
     class SimResource(pj.IResource):
         """in-process fake peer: day -> capacity table, full call log, optional failure"""
 
-        def __init__(self, name, weekly, overrides):
+        def __init__(self, name, weekly, overrides, task_limits=None):
             super().__init__(name)
             self.weekly = list(weekly)
             self.overrides = dict(overrides)
+            # IResource.get_available_units(date, task) may answer per task: some tasks can use only part of a day
+            self.task_limits = {int(k) if str(k).lstrip('-').isdigit() else k: v for k, v in (task_limits or {}).items()}
 
-        def cap(self, d):
+        def cap(self, d, task_id=None):
             k = day(d).date().isoformat()
-            if k in self.overrides:
-                return self.overrides[k]
-            return self.weekly[d.weekday()]
+            base = self.overrides[k] if k in self.overrides else self.weekly[d.weekday()]
+            if task_id is not None and task_id in self.task_limits:
+                return min(base, self.task_limits[task_id])
+            return base
 
         def get_available_units(self, date, task=None):
             PEER.tick(self.name)
             PEER.avail_calls += 1
-            return self.cap(date)
+            return self.cap(date, task.id if task is not None else None)
 
         def reserve(self, date, task, units):
             PEER.tick(self.name)
-            PEER.reserve_log.append((self.name, core.iso(day(date)), task.id, units))
+            PEER.reserve_log.append((self.name, core.iso(day(date)), task.id, units, len(core.CLOCK.reads)))
 
     class CountingResource(pj.Resource):
         """the real Resource + real calendar code; only counts calls and logs reservations"""
@@ -79,7 +82,7 @@ def make_classes(pj):
 
         def reserve(self, date, task, units):
             PEER.tick(self.name)
-            PEER.reserve_log.append((self.name, core.iso(day(date)), task.id, units))
+            PEER.reserve_log.append((self.name, core.iso(day(date)), task.id, units, len(core.CLOCK.reads)))
             return super().reserve(date, task, units)
 
     return SimResource, CountingResource
@@ -177,7 +180,7 @@ class SWorld:
         self.directs = {}
         for r in sc.get('resources', []):
             if r['kind'] == 'sim':
-                self.resources[r['name']] = SimResource(r['name'], r['weekly'], r.get('overrides', {}))
+                self.resources[r['name']] = SimResource(r['name'], r['weekly'], r.get('overrides', {}), r.get('task_limits'))
             else:
                 directs = []
                 self.resources[r['name']] = CountingResource(r['name'], build_calendar(pj, r['cal'], directs))
